@@ -1,1 +1,278 @@
-/-! Property theorems for C04 (none yet). -/
+import MirVerif.Lemmas.SimplifyLower
+import MirVerif.Lemmas.SimplifyRules
+import MirVerif.Lemmas.SimplifyCfg
+import MirVerif.Lemmas.SimplifyAlloca
+import MirVerif.Lemmas.SimplifyRename
+import MirVerif.Lemmas.SimplifyInline
+import MirVerif.Lemmas.BridgeC04
+import MirVerif.Lemmas.SemExt
+/-! # C04 — link-time simplification and inlining never change what a program computes.
+Property theorems only.  They are about `Model/Simplify.lean` (a statement-by-statement model of
+`simplify_func`, compared with the real `MIR_link` output on every run), `Model/SimplifyInline.lean`
+and the MirCore semantics `Model/MirCore.lean`; tables and the two small C functions are
+regenerated from mir.c on every run (`Gen/C04_Tables.lean`) and bridged in `Lemmas/BridgeC04.lean`. -/
+namespace MirVerif.Simplify
+open MirVerif.MirCore
+
+section
+variable {μ : Type} [ByteMem μ]
+
+/-- **lower_mem.**  For every memory operand `(disp, base, index, scale)` over registers of the
+program — all shapes: with/without displacement, base, index; `scale` any non-zero value when an
+index is present — and every value-numbering state, the instruction sequence `simplify_op` emits
+runs without error, leaves `disp + base + index·scale (mod 2^64)` in the register the simplified
+operand uses as its address, changes no register of the program and no memory, and keeps the
+value-numbering table well formed. -/
+theorem lower_mem (st : St) (m : MemOp R) (fr : Frame R) (g : G μ)
+    (hwf : VnWF st) (hb : isUser m.base) (hi : isUser m.index)
+    (hs : m.index = none ∨ m.scale ≠ 0) :
+    ∃ fr', execSeq (lowerAddr st m).1 fr g = .ok (fr', g) ∧
+      fr'.regs.get (lowerAddr st m).2.1 = m.addr fr.regs ∧
+      (∀ s, fr'.regs.get (.user s) = fr.regs.get (.user s)) ∧
+      VnWF (lowerAddr st m).2.2 := by
+  obtain ⟨ty, disp, base, index, scale⟩ := m
+  cases index with
+  | none =>
+    cases base with
+    | none => exact lower_abs st ty disp scale fr g hwf
+    | some b =>
+      cases b with
+      | user b => exact lower_base_only st ty disp b scale fr g hwf
+      | temp k => exact absurd hb (by simp [isUser])
+  | some i =>
+    have hs' : scale ≠ 0 := by
+      rcases hs with h | h
+      · cases h
+      · exact h
+    cases i with
+    | temp k => exact absurd hi (by simp [isUser])
+    | user i =>
+      cases base with
+      | none => exact lower_index st ty disp none i scale fr g hwf hs'
+      | some b =>
+        cases b with
+        | user b => exact lower_index st ty disp (some b) i scale fr g hwf hs'
+        | temp k => exact absurd hb (by simp [isUser])
+
+/-- non-vacuity: the hypotheses hold for `i32:-8(b, i, 4)` in the initial state, and the sequence
+is the five instructions `mov; mov; mul; add; add` -/
+example : VnWF {} ∧ isUser (some (R.user "b")) ∧
+    (lowerAddr {} { ty := .i32, disp := -8, base := some (.user "b"), index := some (.user "i"), scale := 4 }).1.length = 5 := by
+  refine ⟨VnWF_init 0 false, trivial, by decide⟩
+
+/-- outside MIR.md's domain (`scale` should be 1, 2, 4 or 8): with `scale = 0`, an index and a
+non-zero displacement the emitted code computes `disp + base + index`, with displacement 0 it
+computes `base` — the two are inconsistent, so the `scale ≠ 0` hypothesis cannot be dropped -/
+example :
+    (lowerAddr {} { ty := .i64, disp := 8, base := some (.user "b"), index := some (.user "i"), scale := 0 }).1.length = 3 ∧
+    (lowerAddr {} { ty := .i64, disp := 0, base := some (.user "b"), index := some (.user "i"), scale := 0 }).1.length = 0 := by
+  decide
+
+/-! ## algebraic shortcuts -/
+
+/-- **algebraic_shortcuts.**  Every row `(a, c)` of the shortcut table — `x*1, x/1, x+0, x-0, x|0,
+x^0, x<<0, x>>0 (signed and unsigned)` — yields `x` for every `x`, exactly for the 64-bit form and
+on the low 32 bits MIR.md defines for the `S` form; the instruction never traps there. -/
+theorem algebraic_shortcuts (a : AOp) (c : Int) (h : aopShortcut a = some c) (short : Bool) (x : W64) :
+    optRel (agree a short) (docSem a short x (BitVec.ofInt 64 c)) (some x) :=
+  shortcut_value a c h short x
+
+/-- as state transformers: the 64-bit row and the `mov` that replaces it coincide, for every
+destination/source operand (register or memory), frame and memory -/
+theorem algebraic_shortcuts_step (a : AOp) (c : Int) (h : aopShortcut a = some c) (body : List SInsn)
+    (d x : Opd R) (fr : Frame R) (g : G μ) :
+    stepInsn body (.bin a false d x (.imm (BitVec.ofInt 64 c))) fr g = stepInsn body (.mov d x) fr g :=
+  shortcut_step a c h body d x fr g
+
+/-- the table in the current mir.c is the one the theorems are about (plus `MULO`/`MULOS`) -/
+theorem algebraic_shortcuts_table :
+    (∀ r ∈ Gen.C04.shortcutRows, r ∈ shortcutRowsModel) ∧ (∀ r ∈ shortcutRowsModel, r ∈ Gen.C04.shortcutRows) :=
+  ⟨gen_shortcut_rows.2.1, gen_shortcut_rows.2.2⟩
+
+example : aopShortcut .div = some 1 ∧ ("DIVS", (1 : Int)) ∈ Gen.C04.shortcutRows := by decide
+
+/-- FALSE on the current code for the rows `MULO x,1` / `MULOS x,1`: the value is right, but the
+instruction also *clears* the overflow flags, which the replacing `mov` leaves as an earlier
+instruction set them (`addo` overflowing; `mulo r,a,1; bo L` — the branch is then taken although
+`a*1` does not overflow; known finding C04:mulo-by-1-drops-overflow-flag).  Kernel-checked witness: -/
+theorem mulo_shortcut_unsound (body : List SInsn) (d x : R) (fr : Frame R) (g : G μ) (hs : fr.sov = true) :
+    ∃ f1 f2, stepInsn body (.ovf .mul false (.reg d) (.reg x) (.imm 1)) fr g = .ok (f1, g) ∧
+      stepInsn body (.mov (.reg d) (.reg x)) fr g = .ok (f2, g) ∧
+      f1.regs = f2.regs ∧ f1.sov = false ∧ f2.sov = true := by
+  obtain ⟨h1, h2⟩ := mulo_shortcut_flags body d x fr g
+  exact ⟨_, _, h1, h2, rfl, rfl, by simp [next, hs]⟩
+
+/-! ## `bt/bf` of a constant, reversed branches -/
+
+/-- **bt_bf_const.**  `BT|BF[S] L, 0|1` is either `jmp L` or a no-op, as the rewrite decides -/
+theorem bt_bf_const (body : List SInsn) (i : SInsn) (b : Bool) (h : btConst i = some b)
+    (fr : Frame R) (g : G μ) :
+    ∃ l, intBranchTarget i = some l ∧
+      stepInsn body i fr g = if b then stepInsn body (.jmp l) fr g else .ok (next fr, g) :=
+  bt_bf_const_step body i b h fr g
+
+example : btConst (.bt true false 3 (.imm 0) : SInsn) = some true := by decide
+
+/-- **reverse_branch.**  For every branch `MIR_reverse_branch_code` reverses (bt/bf, the ten integer
+compare-and-branch forms in 64 and 32 bit, the four overflow branches) the reversed instruction is
+a branch whose condition is the negation, in every state — and the row is in the current mir.c. -/
+theorem reverse_branch (i : SInsn) (mk : Lab → SInsn) (h : reverseBranch i = some mk) (l2 : Lab)
+    (fr : Frame R) (g : G μ) :
+    intBranchTarget (mk l2) = some l2 ∧
+    (∃ c, brCond i fr g = some c ∧ brCond (mk l2) fr g = some (c.map (!·))) ∧
+    (∃ n n', brCodeName i = some n ∧ brCodeName (mk l2) = some n' ∧ (n, n') ∈ Gen.C04.reverseRows) :=
+  ⟨(reverse_branch_cond i mk h l2 fr g).1, (reverse_branch_cond i mk h l2 fr g).2, gen_reverse_row i mk h l2⟩
+
+example : (reverseBranch (.bcmp .ult true 1 (.reg (.user "a")) (.imm 5) : SInsn)).isSome = true := by decide
+
+/-! ## CFG-local rewrites -/
+
+/-- **jump_to_next.**  `BR L | JMP L; <labels> L:` — the model's condition (`reaches`) means exactly
+this shape, and then the instruction changes nothing and both its successors are the same
+instruction once labels are skipped: removing it preserves the successor relation. -/
+theorem jump_to_next (pre tl : List SInsn) (i : SInsn) (l : Lab)
+    (ht : branchTarget i = some l) (hr : reaches tl l = true) (hp : NoLabel pre l)
+    (fr fr' : Frame R) (g g' : G μ) (hpc : fr.pc = pre.length)
+    (hs : stepInsn (pre ++ i :: tl) i fr g = .ok (fr', g')) :
+    g' = g ∧ fr'.regs = fr.regs ∧ fr'.sov = fr.sov ∧ fr'.uov = fr.uov ∧
+      normPc (pre ++ i :: tl) fr'.pc = normPc (pre ++ i :: tl) (pre.length + 1) := by
+  obtain ⟨labs, rest, rfl, ha, hl⟩ := reaches_decomp tl l hr
+  exact jump_to_next_step pre labs rest i l ht ha hp hl fr fr' g g' hpc hs
+
+example : reaches [(.label 1 : SInsn), .label 2, .ret []] 2 = true := by decide
+
+/-- **br_over_jmp.**  `BCond L; JMP L2; <labels> L:  ⇒  BNCond L2; <labels> L:` preserves the
+successor relation: when the condition holds both versions continue at `L`'s instruction, otherwise
+both continue at `L2` (whose index moved by the deleted instruction). -/
+theorem br_over_jmp (pre tl : List SInsn) (i : SInsn) (mk : Lab → SInsn) (l l2 : Lab) (x : Lab)
+    (hrev : reverseBranch i = some mk) (ht : intBranchTarget i = some l)
+    (hr : reaches (.label x :: tl) l = true) (hp : NoLabel pre l)
+    (fr : Frame R) (g : G μ) (hpc : fr.pc = pre.length) (b : Bool) (hc : brCond i fr g = some (.ok b)) :
+    ∃ labs rest, (.label x :: tl : List SInsn) = labs ++ .label l :: rest ∧
+    (b = true →
+      stepInsn (pre ++ i :: .jmp l2 :: (labs ++ .label l :: rest)) i fr g
+        = .ok ({ fr with pc := pre.length + 2 + labs.length }, g) ∧
+      stepInsn (pre ++ mk l2 :: (labs ++ .label l :: rest)) (mk l2) fr g = .ok (next fr, g) ∧
+      normPc (pre ++ mk l2 :: (labs ++ .label l :: rest)) (pre.length + 1)
+        = normPc (pre ++ mk l2 :: (labs ++ .label l :: rest)) (shiftPc pre.length (pre.length + 2 + labs.length))) ∧
+    (b = false →
+      stepInsn (pre ++ i :: .jmp l2 :: (labs ++ .label l :: rest)) i fr g = .ok (next fr, g) ∧
+      stepInsn (pre ++ i :: .jmp l2 :: (labs ++ .label l :: rest)) (.jmp l2) (next fr) g
+        = (goto (pre ++ i :: .jmp l2 :: (labs ++ .label l :: rest)) (next fr) l2).map (·, g) ∧
+      stepInsn (pre ++ mk l2 :: (labs ++ .label l :: rest)) (mk l2) fr g
+        = (goto (pre ++ mk l2 :: (labs ++ .label l :: rest)) fr l2).map (·, g) ∧
+      findLabel (pre ++ mk l2 :: (labs ++ .label l :: rest)) l2
+        = (findLabel (pre ++ i :: .jmp l2 :: (labs ++ .label l :: rest)) l2).map (shiftPc pre.length)) := by
+  obtain ⟨labs, rest, e, ha, hl⟩ := reaches_decomp _ l hr
+  exact ⟨labs, rest, e, br_over_jmp_step pre labs rest i mk l l2 hrev ht ha hp hl fr g hpc b hc⟩
+
+end
+
+/-! ## alloca consolidation -/
+
+/-- **alloca_consolidation** (layout part, the code as it is and the candidate fix alike): for
+every list of constant `alloca` sizes, the blocks `[offset, offset + rounded size)` produced by the
+consolidation loop start at or after 0, are pairwise disjoint (in program order), lie inside
+`overall_size`, and each rounded size covers the requested size. -/
+theorem alloca_consolidation (always : Bool) (s0 : Int) (rest : List Int) :
+    let r := consolidate always s0 rest
+    let blocks := (0, (allocaSizeAlign s0).1) :: r.1.zip (sizesOf rest)
+    (∀ b ∈ blocks, 0 ≤ b.1 ∧ b.1 + b.2 ≤ r.2) ∧
+    blocks.Pairwise (fun a b => a.1 + a.2 ≤ b.1) ∧
+    (∀ s ∈ s0 :: rest, s ≤ (allocaSizeAlign s).1 ∧ 1 ≤ (allocaSizeAlign s).1) := by
+  intro r blocks
+  have hc := consolidateLoop_chain always rest (allocaSizeAlign s0).1 (allocaSizeAlign s0).2
+  have hpos := sizesOf_pos rest
+  have hb := chain_bounds _ _ _ _ hc hpos
+  have h0 := (allocaSizeAlign_spec s0).2.2.1
+  refine ⟨?_, ?_, ?_⟩
+  · intro b hb'
+    simp only [blocks, List.mem_cons] at hb'
+    rcases hb' with rfl | hb'
+    · exact ⟨Int.le_refl _, by simpa [r, consolidate] using hb.1⟩
+    · have := hb.2 b (by simpa [r, consolidate] using hb')
+      simp only [r, consolidate]
+      omega
+  · simp only [blocks, List.pairwise_cons]
+    refine ⟨fun p hp => ?_, by simpa [r, consolidate] using chain_pairwise _ _ _ _ hc hpos⟩
+    have := hb.2 p (by simpa [r, consolidate] using hp)
+    omega
+  · intro s _
+    have := allocaSizeAlign_spec s
+    exact ⟨this.2.2.2.1, this.2.2.1⟩
+
+/-- (alignment part) FALSE on the current code: `alloca 16; alloca 3; alloca 17` places the third
+block, whose alignment is 16, at offset 20 (known finding C04:alloca-consolidation-misaligned;
+mir.c rounds the running size only when the alignment *grows*). -/
+theorem alloca_consolidation_misaligned :
+    consolidate false 16 [3, 17] = ([16, 20], 52) ∧ alignsOf [3, 17] = [4, 16] ∧ ¬ ((16 : Int) ∣ 20) :=
+  consolidate_misaligned_witness
+
+/-- `alloca_consolidation_partial`: on the current code every offset is a multiple of its block's
+alignment provided the alignments do not decrease along the list … -/
+theorem alloca_consolidation_partial (s0 : Int) (rest : List Int)
+    (h : Ascending (allocaSizeAlign s0).2 rest) :
+    AlignedAt (consolidate false s0 rest).1 (alignsOf rest) :=
+  consolidateLoop_aligned_partial rest _ _ (allocaSizeAlign_spec s0).2.1 h
+
+/-- … and with the candidate fix (round before every block; `fixes/C04-alloca-consolidation-misaligned.patch`)
+for every list -/
+theorem alloca_consolidation_fixed (s0 : Int) (rest : List Int) :
+    AlignedAt (consolidate true s0 rest).1 (alignsOf rest) :=
+  consolidateLoop_aligned_always rest _ _
+
+example : Ascending (allocaSizeAlign 3).2 [8, 17, 100] := by
+  refine ⟨by decide, by decide, by decide, trivial⟩
+example : (consolidate false 3 [8, 17, 100]).1 = [8, 16, 48] := by decide
+
+/-- the two C functions the loop calls are the model's, for every request below 2^62 bytes -/
+theorem alloca_functions_bridge (s : BitVec 64) (h : s.toInt < 2 ^ 62) :
+    (Gen.C04.natural_alignment s).toInt = naturalAlignment s.toInt ∧
+    (Gen.C04.get_alloca_size_align s).1.toInt = (allocaSizeAlign s.toInt).1 ∧
+    (Gen.C04.get_alloca_size_align s).2.toInt = (allocaSizeAlign s.toInt).2 :=
+  ⟨gen_natural_alignment s, gen_alloca_size_align s h⟩
+
+/-! ## extension of narrow results and arguments -/
+
+/-- **ret_ext / arg_ext.**  The extension instruction `make_one_ret` puts before the merged `ret`
+and `simplify_func` puts at function entry for a value of the narrow type `t` computes the
+documented truncation to `t` (MIR.md §MIR_RET, §MIR_CALL) — as documented (`docExt`) and as the
+interpreter's `EXT(tp)` macro computes it; wide types get no instruction and need none. -/
+theorem ret_ext (t : Ty) (k : Nat) (sg : Bool) (h : extOfTy t = some (k, sg)) (v : W64) :
+    docExt k sg v = t.trunc v ∧ macroExt k sg v = t.trunc v := by
+  cases t <;> simp [extOfTy] at h <;> obtain ⟨rfl, rfl⟩ := h <;>
+    simp [Ty.trunc, Ty.bytes, Ty.signed, ext8, ext16, ext32, uext8, uext16, uext32]
+
+theorem arg_ext (t : Ty) (h : extOfTy t = none) (hb : t.isBlk = false) (v : W64) : t.trunc v = v := by
+  cases t <;> simp [extOfTy, Ty.isBlk] at h hb <;> simp [Ty.trunc, Ty.bytes]
+
+/-- both tables in the current mir.c are `extOfTy` -/
+theorem ext_tables :
+    Gen.C04.retExtRows = Gen.C04.argExtRows ∧
+    Gen.C04.retExtRows =
+      ([Ty.i8, .u8, .i16, .u16, .i32, .u32].filterMap fun t => (extOfTy t).map fun (k, sg) => (tyCodeName t, extName k sg)) :=
+  gen_ext_rows
+
+example : extOfTy .u16 = some (16, false) ∧ Ty.trunc .u16 0x12345 = 0x2345 := by decide
+
+/-! ## renaming of inlined registers -/
+
+/-- **rename_injective.**  The spelling `.c<n>_<name>` determines the inlining instance and the
+callee register: registers of different inlined calls, and different registers of one call, never
+share a name. -/
+theorem rename_injective (n m : Nat) (a b : List Char) (h : inlNameChars n a = inlNameChars m b) :
+    n = m ∧ a = b :=
+  inlNameChars_inj n m a b h
+
+example : inlNameChars 12 ['x'] = ['.', 'c', '1', '2', '_', 'x'] := by
+  simp [inlNameChars, digits, digitsRev, dch]
+
+/-- the hypothesis the code needs and never checks — no register of the caller already has that
+spelling — is not implied by anything: `_MIR_name_char_p` admits '.', so `.c1_x` is a legal user
+register; `MIR_new_func_reg` then answers "Repeated reg declaration" at link time for a legal
+program (known finding C04:inline-rename-collision, replayed by the check). -/
+theorem rename_collides_with_user_name :
+    inlNameChars 1 ['x'] = ['.', 'c', '1', '_', 'x'] := by
+  simp [inlNameChars, digits, digitsRev, dch]
+
+end MirVerif.Simplify
